@@ -90,6 +90,10 @@ func (acc *DB) TransferWithdraw(from, to string, amount int64) (*types.Receipt, 
 	if err := acc.CheckTransfer(to, from, amount); err != nil {
 		return nil, err
 	}
+	//收款账户余额不能溢出, 否则ExecWithdraw之后Transfer才失败(panic)
+	if _, err := safeAdd(acc.LoadAccount(from).GetBalance(), amount); err != nil {
+		return nil, err
+	}
 	receipt, err := acc.ExecWithdraw(to, from, amount)
 	if err != nil {
 		return nil, err
